@@ -149,6 +149,21 @@ func (x *ctx) single(rng *rand.Rand) {
 		}, w1, d)
 	}
 	x.try("SetExpanded", func() *curve.EdwardsPoint { return x.h.E().SetExpanded(e.Exp) }, e.Ref, d)
+	// objects built FROM a point stand for the value the point had at construction: the caller goes on using (and
+	// changing) its point object before the table or expansion is used for the first time
+	{
+		src := x.h.EVal(lp)
+		tbl := curve.NewEdwardsBasepointTable(src)
+		xp := curve.NewExpandedEdwardsPoint(src)
+		src.Add(src, curve.ED25519_BASEPOINT_POINT) // the caller's object moves on
+		src.Neg(src)
+		x.try("NewEdwardsBasepointTable(P); P changed; MulBasepoint", func() *curve.EdwardsPoint { return x.h.E().MulBasepoint(tbl, sc) }, w1, d)
+		x.try("NewEdwardsBasepointTable(P); P changed; Basepoint", func() *curve.EdwardsPoint { return tbl.Basepoint() }, e.Ref, d)
+		x.try("NewExpandedEdwardsPoint(P); P changed; ExpandedDoubleScalarMulBasepointVartime", func() *curve.EdwardsPoint {
+			return x.h.E().ExpandedDoubleScalarMulBasepointVartime(sc, xp, sc2)
+		}, w3, d)
+		x.try("NewExpandedEdwardsPoint(P); P changed; Point", func() *curve.EdwardsPoint { return xp.Point() }, e.Ref, d)
+	}
 	// an expansion whose object used to be the expansion of another point, a value copy of which is still in use:
 	// both must keep standing for their own point in every routine that consumes expansions
 	{
@@ -342,6 +357,19 @@ func (x *ctx) msm(rng *rand.Rand, size int) {
 	d := func() string { return fmt.Sprintf("size=%d", size) }
 	x.r.Eval([]byte(fmt.Sprintf("msm%d/%s", size, x.c.Stream)))
 	x.try(fmt.Sprintf("MultiscalarMulVartime(n=%d)", size), func() *curve.EdwardsPoint { return x.h.E().MultiscalarMulVartime(scalars, points) }, want, d)
+	if size > 5000 {
+		// very long lists: the vartime routine only (plain, with the receiver among the points, one static/dynamic split)
+		x.try(fmt.Sprintf("MultiscalarMulVartime(n=%d, receiver = points[last])", size), func() *curve.EdwardsPoint {
+			acc := x.h.E().Set(points[size-1])
+			pts := append([]*curve.EdwardsPoint{}, points...)
+			pts[size-1] = acc
+			return acc.MultiscalarMulVartime(scalars, pts)
+		}, want, d)
+		x.try(fmt.Sprintf("ExpandedMultiscalarMulVartime(n=%d)", size), func() *curve.EdwardsPoint {
+			return x.h.E().ExpandedMultiscalarMulVartime(scalars[:size/3], exps[:size/3], scalars[size/3:], points[size/3:])
+		}, want, d)
+		return
+	}
 	x.try(fmt.Sprintf("MultiscalarMul(n=%d)", size), func() *curve.EdwardsPoint { return x.h.E().MultiscalarMul(scalars, points) }, want, d)
 	if size > 0 {
 		// the receiver is one of the input points (first, middle, last), at every size
@@ -470,9 +498,9 @@ func main() {
 		cases = append(cases, Case{Kind: "single", Stream: fmt.Sprintf("c03/single/%d", i)})
 	}
 	sizes := []int{0, 1, 2, 3, 8, 93, 94, 95, 189, 190, 191}
-	big1 := []int{500, 800, 1025, 1500}
+	big1 := []int{500, 800, 1025, 1500, 32771}
 	if !r.Quick {
-		big1 = []int{499, 500, 501, 799, 800, 801, 1000, 1023, 1024, 1025, 1500, 2047, 2048, 2049, 4097}
+		big1 = []int{499, 500, 501, 799, 800, 801, 1000, 1023, 1024, 1025, 1500, 2047, 2048, 2049, 4097, 16385, 32767, 32768, 32770, 32771, 65539}
 	}
 	for rep := 0; rep < r.Pick(3, 20); rep++ {
 		for _, s := range sizes {
